@@ -43,8 +43,9 @@ def normal(e, vars_):
         return p_const(Fraction(e.numerator_as_long(), e.denominator_as_long()) if z3.is_rational_value(e) else e.as_long()), p_const(1)
     k = e.decl().kind()
     ch = e.children()
-    if k == z3.Z3_OP_UNINTERPRETED and not ch:
-        vars_[str(e)] = e; return p_var(str(e)), p_const(1)
+    if k == z3.Z3_OP_UNINTERPRETED:
+        # a variable, or an application of an uninterpreted function (pow10(e)): an atom of the polynomial
+        vars_[e.sexpr()] = e; return p_var(e.sexpr()), p_const(1)
     if k == z3.Z3_OP_TO_REAL: return normal(ch[0], vars_)
     if k == z3.Z3_OP_ADD or k == z3.Z3_OP_SUB:
         n, d = normal(ch[0], vars_)
